@@ -101,6 +101,23 @@ Inductive fhead (l : language) : list token -> nat -> nat -> Prop :=
     kw_is ak s_async = true -> bgroups gs -> is_symbol arrow s_arrow = true ->
     fhead l (ck :: nm :: eq :: ak :: gs ++ [arrow]) 1 (4 + length gs + 1).
 
+(* ---- callbacks (JavaScript / TypeScript): a statement that passes an anonymous function with a braced body ----
+   `run ( "x" , function ( ) { … } ) ;`   `items . forEach ( ( item ) => { … } ) ;`
+   a ++ tail ++ "{" body "}" ++ post ++ ";"  where
+   a    is an OPEN PREFIX: brace-free, without ":" operators, its parentheses never close more than they opened, and
+        as many are left open as post closes; its last token is "(" or ",";
+   tail is `function (…)+` or `(…)+ =>` — an anonymous function;
+   post consists of the closing parentheses only. *)
+Definition s_comma : pystr := [44].
+Inductive open_prefix : list token -> nat -> Prop :=
+| op_nil : open_prefix [] 0
+| op_plain t a d : plain t = true -> is_operator t s_colon = false -> open_prefix a d -> open_prefix (a ++ [t]) d
+| op_open t a d : is_lparen t = true -> open_prefix a d -> open_prefix (a ++ [t]) (S d)
+| op_close t a d : is_rparen t = true -> open_prefix a (S d) -> open_prefix (a ++ [t]) d.
+Inductive cb_tail : list token -> Prop :=
+| cbt_function fk gs : kw_is fk s_function = true -> groups gs -> cb_tail (fk :: gs)
+| cbt_arrow gs arrow : groups gs -> is_symbol arrow s_arrow = true -> cb_tail (gs ++ [arrow]).
+
 Inductive items_of (l : language) : nat -> list token -> list fdesc -> Prop :=
 | io_nil off : items_of l off [] []
 | io_stmt off s r ds :
@@ -123,6 +140,14 @@ Inductive items_of (l : language) : nat -> list token -> list fdesc -> Prop :=
     inner post -> is_symbol semi semicolon = true ->
     items_of l (off + length pre + 1 + length flat + 1 + length post + 1) r ds ->
     items_of l off (pre ++ o :: flat ++ c :: post ++ semi :: r) ds
+| io_cb off a tail o body c post semi r ds1 ds2 :
+    is_jsts l = true -> a <> [] -> open_prefix a (length post) ->
+    (is_lparen (last a o) = true \/ is_symbol (last a o) s_comma = true) ->
+    cb_tail tail -> is_lbrace o = true -> is_rbrace c = true ->
+    forallb is_rparen post = true -> is_symbol semi semicolon = true ->
+    items_of l (off + length a + length tail + 1) body ds1 ->
+    items_of l (off + length a + length tail + 1 + length body + 1 + length post + 1) r ds2 ->
+    items_of l off (a ++ tail ++ o :: body ++ c :: post ++ semi :: r) (ds1 ++ ds2)
 | io_func off pre hd nm_off hend_off o body c r ds1 ds2 :
     forallb (prefix_word l) pre = true -> fhead l hd nm_off hend_off ->
     is_lbrace o = true -> is_rbrace c = true ->
